@@ -32,3 +32,54 @@ Lemma tables_agree :
   int_arms_ok = true /\ type_methods_ok = true /\
   List.length spec_kinds_table = 27%nat.
 Proof. repeat split; reflexivity. Qed.
+
+(* The Go-side naming of the manual's fields: struct and field names with kinds, in wire order.
+   intro(5) name -> Go field: msize->MSize version->Version afid->Afid uname->Uname aname->Aname
+   aqid/qid->Qid ename->Ename oldtag->Oldtag fid->Fid newfid->Newfid wname->Wnames wqid->Qids
+   mode->Mode iounit->IOUnit name->Name perm->Perm offset->Offset count->Count data->Data stat->Stat;
+   stat(5): type dev qid mode atime->AccessTime mtime->ModTime length name uid gid muid.
+   A reordering of two fields of the same kind (Fid/Afid, Uname/Aname, AccessTime/ModTime) changes
+   the wire order without changing the kinds: comparing names catches it. *)
+Definition expected_msg_table : list (N * (string * list (string * kind))) :=
+  [(100, ("MessageTversion", [("MSize", (KInt 4)); ("Version", KStr)]));
+   (101, ("MessageRversion", [("MSize", (KInt 4)); ("Version", KStr)]));
+   (102, ("MessageTauth", [("Afid", (KInt 4)); ("Uname", KStr); ("Aname", KStr)]));
+   (103, ("MessageRauth", [("Qid", KQid)]));
+   (104, ("MessageTattach", [("Fid", (KInt 4)); ("Afid", (KInt 4)); ("Uname", KStr); ("Aname", KStr)]));
+   (105, ("MessageRattach", [("Qid", KQid)]));
+   (107, ("MessageRerror", [("Ename", KStr)]));
+   (108, ("MessageTflush", [("Oldtag", (KInt 2))]));
+   (109, ("MessageRflush", []));
+   (110, ("MessageTwalk", [("Fid", (KInt 4)); ("Newfid", (KInt 4)); ("Wnames", KStrs)]));
+   (111, ("MessageRwalk", [("Qids", KQids)]));
+   (112, ("MessageTopen", [("Fid", (KInt 4)); ("Mode", (KInt 1))]));
+   (113, ("MessageRopen", [("Qid", KQid); ("IOUnit", (KInt 4))]));
+   (114, ("MessageTcreate", [("Fid", (KInt 4)); ("Name", KStr); ("Perm", (KInt 4)); ("Mode", (KInt 1))]));
+   (115, ("MessageRcreate", [("Qid", KQid); ("IOUnit", (KInt 4))]));
+   (116, ("MessageTread", [("Fid", (KInt 4)); ("Offset", (KInt 8)); ("Count", (KInt 4))]));
+   (117, ("MessageRread", [("Data", KData)]));
+   (118, ("MessageTwrite", [("Fid", (KInt 4)); ("Offset", (KInt 8)); ("Data", KData)]));
+   (119, ("MessageRwrite", [("Count", (KInt 4))]));
+   (120, ("MessageTclunk", [("Fid", (KInt 4))]));
+   (121, ("MessageRclunk", []));
+   (122, ("MessageTremove", [("Fid", (KInt 4))]));
+   (123, ("MessageRremove", []));
+   (124, ("MessageTstat", [("Fid", (KInt 4))]));
+   (125, ("MessageRstat", [("Stat", KDir)]));
+   (126, ("MessageTwstat", [("Fid", (KInt 4)); ("Stat", KDir)]));
+   (127, ("MessageRwstat", []))].
+
+Definition expected_qid_fields : list (string * kind) :=
+[("Type", (KInt 1)); ("Version", (KInt 4)); ("Path", (KInt 8))].
+
+Definition expected_dir_fields : list (string * kind) :=
+[("Type", (KInt 2)); ("Dev", (KInt 4)); ("Qid", KQid); ("Mode", (KInt 4)); ("AccessTime", KTime); ("ModTime", KTime); ("Length", (KInt 8)); ("Name", KStr); ("UID", KStr); ("GID", KStr); ("MUID", KStr)].
+
+Lemma expected_kinds_are_the_manuals :
+  map (fun r => (fst r, map snd (snd (snd r)))) expected_msg_table = spec_kinds_table /\
+  map snd expected_dir_fields = spec_dir_kinds /\ map snd expected_qid_fields = spec_qid_kinds.
+Proof. repeat split; reflexivity. Qed.
+
+Lemma tables_agree_named :
+  gen_msg_table = expected_msg_table /\ gen_dir_fields = expected_dir_fields /\ gen_qid_fields = expected_qid_fields.
+Proof. repeat split; reflexivity. Qed.
